@@ -96,7 +96,23 @@ pub fn handle(req: &Value) -> Value {
         }
         // read a layer dir and answer queries (C03, C10)
         "read_apply" => match LayerEnv::read_from_layer_dir(os_from_hex(jstr(req, "dir"))) {
-            Ok(le) => json!({"results": run_queries(&le, jarr(req, "queries"))}),
+            Ok(le) => {
+                // "vanish": between reading the layer and applying what was read, the layer directory is moved away and the process goes
+                // somewhere else - a LayerEnv is a value; what it does to an environment was settled when it was read
+                let dir = std::path::PathBuf::from(os_from_hex(jstr(req, "dir")));
+                let vanish = req.get("vanish").and_then(Value::as_bool).unwrap_or(false);
+                let mut away = dir.clone().into_os_string();
+                away.push(".moved-away");
+                let moved = vanish && std::fs::rename(&dir, &away).is_ok();
+                if vanish {
+                    let _ = std::env::set_current_dir("/proc");
+                }
+                let results = run_queries(&le, jarr(req, "queries"));
+                if moved {
+                    let _ = std::fs::rename(&away, &dir);
+                }
+                json!({"results": results, "moved": moved})
+            }
             Err(e) => err_json("io", e),
         },
         // read then write back n times (C10 fix-point)
